@@ -1185,6 +1185,11 @@ impl TransactionBuilder {
 
     /// Add explicit output via a TransactionOutput object
     pub fn add_output(&mut self, output: &TransactionOutput) -> Result<(), JsError> {
+        if output.amount.has_empty_entries() {
+            return Err(JsError::from_str(
+                "The output value holds an asset with quantity zero or a policy without assets",
+            ));
+        }
         let value_size = output.amount.to_bytes().len();
         #[cfg(csl_verif)]
         crate::verif_oracle::log(b'S', Some((value_size > self.config.max_value_size as usize) as u64));
